@@ -166,6 +166,20 @@ CLAIMED = {
         design_ref="DESIGN.md section 5 C02",
         note="Trusted: TLC, the adapter's renderer (spelling) and projection. Atoms come from small vocabularies whose canonical "
              "texts are fixpoints of cssutils' value serialisation; character-level content is C03/C05/C18's job."),
+    "C03": dict(
+        technique="TLA+ round-trip contract (RoundTripContract: reparse = equivalent DOM, second serialisation byte-identical, single "
+                  "nodes set back on fresh objects, content survives; Quote/Unquote losslessness lemma checked by TLC); DOM sources "
+                  "all generated by TLC: SheetAST ASTs x spellings, Content.tla character-class content x 9 positions x 3 target "
+                  "encodings, SheetDOM and DeclBlock edit histories; plus the repository's sheets; TLC trace monitor",
+        text="Bounded exhaustive + real-world: every AST of the C02 generator in spelling vectors (safe and default preferences), all "
+             "content strings of <=2 (quick) / <=3 (thorough) over 22 character classes in 9 text-carrying positions under "
+             "utf-8/ascii/iso-8859-1, the 50 sheets in /repo/sheets, and the DOMs after every accepted step of 3000 (quick) / 40000 "
+             "SheetDOM and DeclBlock histories from the TLC transition tours.",
+        design_ref="DESIGN.md section 5 C03",
+        note="Trusted: TLC, the shared DOM projection (adapters/sheetast.py; a zero length is projected unit-less), SHA-1 digests for "
+             "byte equality. Judged with keepEmptyRules=True/resolveVariables=False where the defaults are documented lossy. "
+             "Ten known findings in three root-cause classes (identifiers with non-name characters are serialised unescaped; "
+             "quoted content with an escaped backslash; url with control character)."),
 }
 PENDING = "check not built yet in this round (see DESIGN.md section 10 build order); no claim is made"
 NOT_APPLICABLE = {}
